@@ -4,7 +4,11 @@ import (
 	"bytes"
 	"fmt"
 	"io"
+	"reflect"
+	"runtime"
+	"strings"
 	"testing"
+	"time"
 
 	"github.com/maruel/panicparse/v2/stack"
 	"pgregory.net/rapid"
@@ -74,10 +78,73 @@ var c01Dump = Check[c01Case]{
 	Obs:    c01Obs,
 }
 
-func init() { register(c01Dump.key(), c01Dump.Oracle) }
+func init() {
+	register(c01Dump.key(), c01Dump.Oracle)
+	// a live dump has no input to replay: the replay re-runs a few live rounds
+	register("C01/live", func(m map[string]any) error {
+		var err error
+		func() {
+			w := newWorkload(1)
+			defer w.shutdown()
+			_, _, err = c20Library(w)
+		}()
+		return err
+	})
+}
+
+// c01Live: dumps produced by the live runtime for goroutines with known stacks. The workload
+// of C20 parks registered goroutines in known functions; here the runtime's own dump of them
+// must parse into exactly those goroutines (state, parked frame with file and line obtained
+// independently through runtime.FuncForPC, lock flag, elision marker, creator and parent id).
+func c01Live(t *testing.T, rounds int) {
+	st := statsFor("C01")
+	w := newWorkload(2)
+	defer w.shutdown()
+	w.churn(2, 12)
+	lines := map[string]int{}
+	for name, f := range map[string]any{"parkRecv": parkRecv, "parkSend": parkSend, "parkMutex": parkMutex} {
+		pc := reflect.ValueOf(f).Pointer()
+		_, line := runtime.FuncForPC(pc).FileLine(pc)
+		lines[name] = line
+	}
+	for r := 0; r < rounds; r++ {
+		err := guard(func() error {
+			if _, _, err := c20Library(w); err != nil {
+				return err
+			}
+			// line numbers of the single-line parking functions
+			buf := make([]byte, 16<<20)
+			buf = buf[:runtime.Stack(buf, true)]
+			snap, _, _ := stack.ScanSnapshot(bytes.NewReader(buf), io.Discard, plainOpts())
+			if snap == nil {
+				return fmt.Errorf("no snapshot in the live dump")
+			}
+			for _, g := range snap.Goroutines {
+				for i := range g.Stack.Calls {
+					c := &g.Stack.Calls[i]
+					if want, ok := lines[c.Func.Name]; ok && strings.HasSuffix(c.Func.ImportPath, "harness/props") && c.Line != want {
+						return fmt.Errorf("goroutine %d: frame %s is at line %d of %s, the parser says %d", g.ID, c.Func.Name, want, c.SrcName, c.Line)
+					}
+				}
+			}
+			return nil
+		})
+		if err != nil {
+			st.markFailed()
+			p := saveReplay("C01", "C01/live", map[string]any{"round": r}, err)
+			t.Fatalf("property C01 violated (C01/live): %v\nreplay=%s", err, p)
+		}
+		st.count(1, 1)
+		time.Sleep(3 * time.Millisecond)
+	}
+	st.class("live_runtime_dumps", int64(rounds))
+}
 
 func TestC01(t *testing.T) {
 	c := c01Dump
 	c.Checks = n(4000, 40000)
 	c.Run(t)
+	if cfg.Shard == 0 {
+		c01Live(t, n(20, 300))
+	}
 }
